@@ -19,7 +19,7 @@ use crate::spec::*;
 use crate::trees::*;
 use crate::with_ctxt;
 
-pub const SHAPES: u8 = 4;
+pub const SHAPES: u8 = 5;
 
 #[derive(Serialize, Deserialize, Debug, Clone)]
 pub struct StaticCase {
@@ -40,6 +40,17 @@ pub struct StaticCase {
     pub prepend: (u8, Val),
     pub nested_ctxt: Vec<(u8, Val)>,
     pub nested_clock: Option<Ts>,
+    /// entry points of the nested emissions of shape 4: [the filter leaf that logs its decision, the tee]
+    #[serde(default = "default_vias")]
+    pub vias: [Via; 2],
+}
+
+fn default_vias() -> [Via; 2] {
+    [Via::MacroTpl(0), Via::MacroEvt]
+}
+
+fn audit_on(sc: &StaticCase) -> AuditOn {
+    [AuditOn::Reject, AuditOn::Always, AuditOn::Accept][sc.macro_b as usize % 3]
 }
 
 fn fl(id: u32, p: &Pred) -> Box<FS> {
@@ -59,6 +70,7 @@ const L1: u32 = ID_FILTER;
 const L2: u32 = ID_FILTER + 1;
 const L3: u32 = ID_FILTER + 2;
 const L4: u32 = ID_DEST + 50;
+const L5: u32 = ID_DEST + 51;
 const M1: u32 = ID_DEST;
 const M2: u32 = ID_DEST + 1;
 const M3: u32 = ID_DEST + 2;
@@ -105,6 +117,39 @@ fn spec_of(sc: &StaticCase) -> (FS, ES) {
                     ctxt: sc.nested_ctxt.clone(),
                     clock: sc.nested_clock,
                 }),
+            ),
+        ),
+        // nested emission: a filter leaf that logs its decision into an audit runtime, and a destination
+        // that tees into a second pipeline (optionally with a call-site filter)
+        4 => (
+            FS::And(
+                fl(L1, &p[0]),
+                Box::new(FS::Audit {
+                    id: L2,
+                    pred: p[1].clone(),
+                    on: audit_on(sc),
+                    fwd: Box::new(FwdSpec {
+                        via: sc.vias[0],
+                        a: sc.macro_a,
+                        when: None,
+                        emitter: *el(M3, true),
+                        filter: *fl(L3, &p[2]),
+                        ctxt: sc.nested_ctxt.clone(),
+                        clock: sc.nested_clock,
+                    }),
+                }),
+            ),
+            ES::And(
+                el(M1, fz[0]),
+                Box::new(ES::Fwd(Box::new(FwdSpec {
+                    via: sc.vias[1],
+                    a: sc.macro_a,
+                    when: if fz[2] { Some(*fl(L5, &p[0])) } else { None },
+                    emitter: *el(M2, fz[1]),
+                    filter: *fl(L4, &p[3]),
+                    ctxt: sc.nested_ctxt.clone(),
+                    clock: sc.nested_clock,
+                }))),
             ),
         ),
         _ => (
@@ -227,6 +272,36 @@ pub fn check_static(sc: &StaticCase, cx: &mut Cx) -> Res {
                 .with_clock(K::new(1, sc.nested_clock));
             let e = (&m1).and_to(nested);
             with_ctxt!(c, cx, ctxt => exercise(&c, &m, &f, when, &e, ctxt, cx).map(|_| ()))
+        }
+        4 => {
+            let rt = |e: RecEmitter, f: RecFilter, tag: u32| {
+                Runtime::new()
+                    .with_emitter(e)
+                    .with_filter(f)
+                    .with_ctxt(ListCtxt::new(&sc.nested_ctxt))
+                    .with_clock(K::new(tag, sc.nested_clock))
+            };
+            let f = rf(L1, &p[0]).and_when(Audit {
+                id: L2,
+                pred: p[1].clone(),
+                on: audit_on(sc),
+                fwd: Tee {
+                    rt: rt(re(M3, true), rf(L3, &p[2]), 2),
+                    when: None::<RecFilter>,
+                    via: sc.vias[0],
+                    a: sc.macro_a,
+                },
+            });
+            let e = re(M1, fz[0]).and_to(Tee {
+                rt: rt(re(M2, fz[1]), rf(L4, &p[3]), 1),
+                when: if fz[2] && sc.vias[1].is_macro() { Some(rf(L5, &p[0])) } else { None },
+                via: sc.vias[1],
+                a: sc.macro_a,
+            });
+            with_ctxt!(c, cx, ctxt => {
+                let g = exercise(&c, &m, &f, when, &e, ctxt, cx)?;
+                exercise_erased_rt(&c, &m, &f, when, &e, ctxt, &g, cx)
+            })
         }
         _ => {
             let inner: Box<dyn ErasedFilter + Send + Sync> = Box::new(rf(L1, &p[0]).and_when(rf(L2, &p[1])));
